@@ -215,7 +215,7 @@ def build_value(d, classes, enums, memo):
         obj = cls.__new__(cls)
         memo[rid] = obj
         for f, v in d["fields"].items():
-            obj.__dict__[f] = build_value(v, classes, enums, memo)
+            obj.__dict__[f] = build_value(v, classes, enums, memo) if f != "name" else ""      # display names are strings; the value layer does not model them
         return obj
     raise SpecError(f"cannot build {d!r}")
 
